@@ -6,7 +6,7 @@ from bounded.common import quiet
 ELS = ['C', 'N', 'O', 'H', 'Zr']
 
 
-def mk(n, terms=True, coeffs=True, extra=True, cell='ortho', seed=0, labels=True, typed=None, kinds=None, xrev=False, long=False, unused=None, dup=False):
+def mk(n, terms=True, coeffs=True, extra=True, cell='ortho', seed=0, labels=True, typed=None, kinds=None, xrev=False, long=False, unused=None, dup=False, rev=False):
     """Structure with n atoms (n <= 6), a fixed pool of terms restricted to existing atoms, type tables."""
     from mofun import Atoms
     rnd = random.Random(seed * 7919 + n)
@@ -36,6 +36,8 @@ def mk(n, terms=True, coeffs=True, extra=True, cell='ortho', seed=0, labels=True
             ts = [t for t in pool if max(t) < n]
             if not ts or (kinds is not None and name not in kinds):
                 continue
+            if rev:
+                ts = [tuple(reversed(t)) for t in ts]        # every term listed from its other end
             if dup:
                 # the same atoms listed twice with different types (multi-term torsions, a bond defined twice): rows are not keys
                 ts = ts + [ts[0]]
